@@ -677,7 +677,7 @@ func main() {
 		"routers; distinct = (path shape, interface sequence, routers, injected fault/tampered bit); model lines = distinct " +
 		"router invocations / slow-path replies / reversals"
 	prop := e.Prop
-	nWorlds := map[string]int{"C02": e.N(60, 400), "C22": e.N(25, 150), "C03": e.N(30, 200), "C04": e.N(7, 12),
+	nWorlds := map[string]int{"C02": e.N(45, 400), "C22": e.N(18, 150), "C03": e.N(30, 200), "C04": e.N(7, 12),
 		"C10": e.N(8, 40)}[prop]
 	if nWorlds == 0 {
 		nWorlds = e.N(10, 50)
